@@ -62,3 +62,9 @@ Proof.
   - change (Q2Qc 0) with 0. ring.
   - change (Q2Qc 0) with 0. ring.
 Qed.
+
+(* ---------- the C view of the rationals (for computed counterexamples, C02) ---------- *)
+Definition qc_ofZ (z : Z) : Qc := Q2Qc (inject_Z z).
+Definition qc_trunc (a : Qc) : Qc :=
+  if qc_lt a 0 then - Q2Qc (inject_Z (Qfloor (- a))) else Q2Qc (inject_Z (Qfloor a)).
+Definition qc_cfmod (a b : Qc) : Qc := if Qc_eq_bool b 0 then 0 else a - b * qc_trunc (a / b).
